@@ -203,7 +203,7 @@ def run_one(mod, base_seed, r, tier, stats):
     case = mod.generate(rng, tier)
     case["seed"] = seed
     case["run"] = r
-    res = mod.execute(case, stats)
+    res = safe_execute(mod, case, stats)
     stats.inc("runs")
     sig = res.get("signature")
     if sig is not None:
@@ -221,6 +221,28 @@ def run_one(mod, base_seed, r, tier, stats):
     for v in res.get("violations", []):
         out.append({"case": case, "violation": v})
     return out
+
+
+def safe_execute(mod, case, stats):
+    """execute(), with an unexpected exception of the oracle turned into a violation record.
+
+    The oracles are exercised on >10^5 cases of the unchanged tree without raising; when one raises on a changed
+    tree the overwhelmingly likely cause is output of a kind the property excludes (NaN grids, ragged results,
+    wrong types).  It is reported as class 'oracle-crash' (with the exception and the frames inside /verif and
+    osyris), minimised and replayed like any other violation.  HarnessError (explicitly unsupported constructs,
+    lost baton, ...) is never converted."""
+    try:
+        return mod.execute(case, stats)
+    except HarnessError:
+        raise
+    except (KeyboardInterrupt, SystemExit):
+        raise
+    except Exception as e:
+        tb = traceback.extract_tb(e.__traceback__)
+        frames = [f"{os.path.basename(f.filename)}:{f.name}" for f in tb][-6:]
+        return {"violations": [{"class": "oracle-crash", "clause": type(e).__name__, "key": {"class": "oracle-crash", "exception": type(e).__name__},
+                                "detail": {"error": scrub(f"{type(e).__name__}: {e}")[:300], "frames": frames}}],
+                "nontrivial": False, "signature": None}
 
 
 def _worker(args):
@@ -360,7 +382,7 @@ def same_failure(v1, v2):
 
 
 def first_matching(mod, case, viol):
-    res = mod.execute(case, Stats())
+    res = safe_execute(mod, case, Stats())
     for v in res.get("violations", []):
         if same_failure(v, viol):
             return v
@@ -442,7 +464,7 @@ def replay_file(modname, path):
     rec = json.load(open(path))
     if hasattr(mod, "prepare"):
         mod.prepare("quick")
-    res = mod.execute(rec["case"], Stats())
+    res = safe_execute(mod, rec["case"], Stats())
     want = rec["violation"]
     got = None
     for v in res.get("violations", []):
